@@ -11,8 +11,8 @@ open SoyVerif SoyVerif.Model
 macro "eok2" : tactic => `(tactic|
   first
   | exact emitOK_safe rfl rfl
-  | (split <;> refine ⟨fun h => ?_, fun h => ?_⟩ <;> first | exact absurd h (by decide) | lx)
-  | (refine ⟨fun h => ?_, fun h => ?_⟩ <;> first | exact absurd h (by decide) | lx))
+  | (split <;> refine ⟨fun h => ?_, fun h => ?_, by decide⟩ <;> first | exact absurd h (by decide) | lx)
+  | (refine ⟨fun h => ?_, fun h => ?_, by decide⟩ <;> first | exact absurd h (by decide) | lx))
 
 /-! ### lexIdent -/
 
@@ -226,22 +226,27 @@ theorem scanNumber_sat {n : Int} {l : Lexer} (hg : Good n l) :
   have hex : Sat (if l1.len ≥ l1.pos + 2 then do
         let s ← sliceOf l1.input l1.pos (l1.pos + 2)
         pure (s == [48, 120])
-      else pure false : Option Bool) (fun _ => True) := by
+      else pure false : Option Bool) (fun b => b = true → l1.pos + 2 ≤ l1.len) := by
     split
-    · apply Sat.bind
+    · rename_i hlen
+      apply Sat.bind
       apply sliceOf_sat (by lx) (by lx) (by lx)
       intro _ _
-      exact Sat.ret trivial
-    · exact Sat.ret trivial
+      exact Sat.ret (fun _ => by lx)
+    · exact Sat.ret (fun h => by simp at h)
   apply hex.mono
-  intro isHex _
+  intro isHex hisHex
   split
-  · split
+  · rename_i hH
+    have hlen2 := hisHex hH
+    split
     · exact NumPost.fail (by first | exact Or.inl rfl | exact Or.inr rfl | assumption) (by lx) (by lx) (by lx) (by lx)
-    · apply Sat.bind
-      apply acceptRun_sat (by lx) (by lx)
-      intro _ l2 hl2 hs2 hp2 hle2 _
-      dsimp only
+    · -- `l.pos += 2`
+      generalize hl2d : ({ l1 with pos := l1.pos + 2 } : Lexer) = l2
+      have hl2 : l2.len = l1.len ∧ l2.mp = l1.mp ∧ l2.tagStart = l1.tagStart ∧ l2.bad = l1.bad := by
+        subst hl2d; exact ⟨rfl, rfl, rfl, rfl⟩
+      have hs2 : l2.start = l1.start := by subst hl2d; rfl
+      have hp2 : l2.pos = l1.pos + 2 := by subst hl2d; rfl
       apply Sat.bind
       apply acceptRun_sat (by lx) (by lx)
       intro ok l3 hl3 hs3 hp3 hle3 hok
